@@ -25,7 +25,21 @@ def _body_flow(ctx, b, starts, memo, depth, out, params_out):
     defs = prov.build_defs(b)
     # locals that are `&mut X` borrows: borrow local -> X
     seen = set()
-    work = list(starts)
+    work = [x if isinstance(x, tuple) else (x, None) for x in starts]
+
+    def push_op(o, idx=None):
+        """queue the local an operand reads; a tuple-field projection selects that field of the
+        tuple the local was built from (field-sensitive through `(a, b)` aggregates)"""
+        if op_is_const(o):
+            return
+        push_place(op_place(o), idx)
+
+    def push_place(pl, idx=None):
+        k = idx
+        for e in pl["p"]:
+            if isinstance(e, dict) and "f" in e and re.match(r"^\d+$", str(e["f"])):
+                k = int(str(e["f"]))
+        work.append((pl["l"], k))
     # index: container local -> [(bb, t)] calls adding to it through a &mut borrow
     cache = ctx.memo("flow_adders", dict)
     adders = cache.get(b.fn)
@@ -63,25 +77,24 @@ def _body_flow(ctx, b, starts, memo, depth, out, params_out):
                     adders.setdefault(x, []).append((i, t))
         cache[b.fn] = adders
     while work:
-        l = work.pop()
-        if l in seen:
+        l, idx = work.pop()
+        if (l, idx) in seen or (l, None) in seen:
             continue
-        seen.add(l)
+        seen.add((l, idx))
         if 1 <= l <= b.nargs:
             params_out.add(l)
         for i, t in adders.get(l, ()):
             out.add((t["f"], b.fn, i))
             for a in t["a"][1:]:
-                if not op_is_const(a):
-                    work.append(op_place(a)["l"])
+                push_op(a, idx)
             for cl in t.get("clos") or ():
                 _ret_flow(ctx, cl, memo, depth + 1, out)
         for kind, bbi, x in defs.get(l, ()):
             if kind == "call":
                 out.add((x["f"], b.fn, bbi))
+                keep = idx if re.search(r"Iterator>::(next|next_back)$|IntoIterator>::into_iter$|::iter(_mut)?$|::unwrap$|::expect$|Deref(Mut)?>::deref(_mut)?$|::as_ref$|::clone$|::drain|::into_iter", x["f"] or "") else None
                 for a in x["a"]:
-                    if not op_is_const(a):
-                        work.append(op_place(a)["l"])
+                    push_op(a, keep)
                 c = callee(x)
                 if c in ctx.prog.bodies and c != b.fn:
                     _ret_flow(ctx, c, memo, depth + 1, out)
@@ -89,18 +102,26 @@ def _body_flow(ctx, b, starts, memo, depth, out, params_out):
                     _ret_flow(ctx, cl, memo, depth + 1, out)
             else:
                 r = x["r"]; k = r["k"]
-                ops = []
+                if x["l"]["p"]:
+                    # partial assignment `l.k = v`: relevant only for that field
+                    fk = None
+                    for e in x["l"]["p"]:
+                        if isinstance(e, dict) and "f" in e and re.match(r"^\d+$", str(e["f"])):
+                            fk = int(str(e["f"]))
+                    if idx is not None and fk is not None and fk != idx:
+                        continue
                 if k in ("use", "cast", "un", "repeat"):
-                    ops = [r["o"]]
+                    push_op(r["o"], idx)
                 elif k == "bin":
-                    ops = [r["a"], r["b"]]
+                    push_op(r["a"]); push_op(r["b"])
                 elif k == "agg":
-                    ops = r["o"]
+                    if idx is not None and r["a"] == "tuple" and idx < len(r["o"]):
+                        push_op(r["o"][idx])
+                    else:
+                        for o in r["o"]:
+                            push_op(o)
                 elif k in ("ref", "rawptr", "discr", "len"):
-                    work.append(r["p"]["l"])
-                for o in ops:
-                    if not op_is_const(o):
-                        work.append(op_place(o)["l"])
+                    push_place(r["p"], idx)
 
 
 def _ret_flow(ctx, fn, memo, depth, out):
@@ -130,7 +151,12 @@ def flow_calls(ctx, fn, operand, seen=None, depth=0, memo=None):
     seen = set() if seen is None else seen
     memo = {} if memo is None else memo
     params = set()
-    _body_flow(ctx, b, [op_place(operand)["l"]], memo, depth, out, params)
+    pl0 = op_place(operand)
+    k0 = None
+    for e in pl0["p"]:
+        if isinstance(e, dict) and "f" in e and re.match(r"^\d+$", str(e["f"])):
+            k0 = int(str(e["f"]))
+    _body_flow(ctx, b, [(pl0["l"], k0)], memo, depth, out, params)
     for p in params:
         if (fn, p) in seen:
             continue
